@@ -108,6 +108,18 @@ def gen_method(rng, idx, cfg, opts):
                     p["alias"] = rng.choice(["X-" + name, name + "_w", name.upper()])
                 p["validator"] = rng.choice([None, None, "required", "gte=0"]) if p["type"] not in ("string", "bool") \
                     else rng.choice([None, None, "required"])
+                if opts.get("reserved_headers") and loc == "header" and rng.random() < 0.5:
+                    # header names the OpenAPI text singles out; a declared @Header parameter is documented all the same
+                    p["alias"] = rng.choice(["Authorization", "Accept", "content-type", "AUTHORIZATION"])
+                if opts.get("dive_validators") and loc == "query" and rng.random() < 0.3:
+                    # a slice whose ELEMENTS are validated: the rules after `dive` are the elements', requiredness is the slice's
+                    p["slice"] = True
+                    p["pointer"] = False
+                    p["validator"] = rng.choice(["dive,gte=1", "unique,dive,gte=0", "min=1,dive"]) if p["type"] not in ("string", "bool") \
+                        else ("unique,dive,alphanum" if p["type"] == "string" else "min=1,dive")
+                if opts.get("blank_validators") and p["type"] == "string" and rng.random() < 0.4:
+                    # a rule whose parameter contains blanks (the valid value "abc" is one of the options)
+                    p["validator"] = rng.choice(["oneof=abc xyz", "required,oneof=abc def ghi", "oneof='abc' 'x y'"])
                 if loc == "query" and rng.random() < 0.15:
                     p["slice"] = True
                     p["pointer"] = False
@@ -213,7 +225,9 @@ def gen_project(rng, opts=None):
         controllers.append({
             "shape": shape,
             "name": "%sCtl%d" % (rng.choice(["B", "A", "Z"]), ci),
-            "pkg": "ctl" if (ci % 2 == 0 or not opts.get("multipkg", True)) else "ctlb",
+            # packages: ctl, its sibling ctlb and (option nested_pkg) ctl/inner, a package directory nested in another one
+            "pkg": "ctl" if (ci % 2 == 0 or not opts.get("multipkg", True)) else
+                   ("ctl/inner" if (opts.get("nested_pkg") and ci % 4 == 3) else "ctlb"),
             "tag": rng.choice(["Tag%d" % ci, "Shared Tag", "T"]), "route": prefix,
             "security": gen_security(rng, schemes, opts.get("undeclared", False)) if opts.get("security", True) else [],
             "descr": rng.choice(["", "Controller description"]), "methods": methods,
@@ -226,7 +240,7 @@ def gen_project(rng, opts=None):
             c["tag"] = "T"
     # package-local types get a per-package name (same-named types in two packages are finding F16)
     for c in controllers:
-        local = "Local%sDto" % c["pkg"].capitalize()
+        local = "Local%sDto" % pkg_ident(c["pkg"])
         for m in c["methods"]:
             if m["ret"] and "LocalDto" in m["ret"]:
                 m["ret"] = m["ret"].replace("LocalDto", local)
@@ -234,8 +248,13 @@ def gen_project(rng, opts=None):
                 if prm["type"] == "LocalDto":
                     prm["type"] = local
                 if prm["type"] == "LocalPrio":
-                    prm["type"] = "Local%sPrio" % c["pkg"].capitalize()
+                    prm["type"] = "Local%sPrio" % pkg_ident(c["pkg"])
     return {"config": cfg, "controllers": controllers, "types": ["Item"]}
+
+
+def pkg_ident(pkg):
+    """Identifier fragment for a package path (ctl/inner -> Ctlinner)."""
+    return pkg.replace("/", "").capitalize()
 
 
 # ------------------------------------------------------------------ renderer
@@ -424,7 +443,7 @@ def render_project(p, root, modpath, method_body=None, extra_imports=None):
             for m in c["methods"]:
                 mk = "%s_%d.go" % (stem, m["file"])
                 files.setdefault(mk, []).append(render_method(c, m, "types", method_body))
-        local = "Local%sDto" % pkg.capitalize()
+        local = "Local%sDto" % pkg_ident(pkg)
         if any(local in (x.get("type") or "") for c in p["controllers"] if c["pkg"] == pkg for m in c["methods"]
                for x in m["params"]) or any(local in (m["ret"] or "") for c in p["controllers"] if c["pkg"] == pkg
                                             for m in c["methods"]):
@@ -435,11 +454,11 @@ def render_project(p, root, modpath, method_body=None, extra_imports=None):
                     # the analysis has loaded on demand by the time it runs again
                     ghost = ("\n// @Tag(Ghost)\n// @Route(/ghost%s)\ntype Ghost%sCtl struct {\n\truntime.GleeceController\n}\n\n"
                              "// @Method(GET)\n// @Route(/boo)\nfunc (c *Ghost%sCtl) Boo() (string, error) {\n\treturn \"\", nil\n}\n"
-                             % (pkg, pkg.capitalize(), pkg.capitalize()))
+                             % (pkg_ident(pkg).lower(), pkg_ident(pkg), pkg_ident(pkg)))
                 f.write("package %s\n\n%s// A type declared next to the controllers, in a file the globs do not match\n"
                         "type %s struct {\n\tLabel string `json:\"label\"`\n\tRank int `json:\"rank\"`\n}\n%s"
-                        % (pkg, "import \"github.com/gopher-fleece/runtime\"\n\n" if ghost else "", local, ghost))
-        prio = "Local%sPrio" % pkg.capitalize()
+                        % (os.path.basename(pkg), "import \"github.com/gopher-fleece/runtime\"\n\n" if ghost else "", local, ghost))
+        prio = "Local%sPrio" % pkg_ident(pkg)
         if files and any(prio == x.get("type") for c in p["controllers"] if c["pkg"] == pkg for m in c["methods"]
                          for x in m["params"]):
             first = sorted(k for k in files if k.endswith("_0.go"))[0]
@@ -458,7 +477,7 @@ def render_project(p, root, modpath, method_body=None, extra_imports=None):
                 if marker in src:
                     imports.append(imp)
             with open(os.path.join(d, fn), "w") as f:
-                f.write("package %s\n\nimport (\n%s\n)\n\n%s\n" % (pkg, "\n".join("\t" + i for i in imports), src))
+                f.write("package %s\n\nimport (\n%s\n)\n\n%s\n" % (os.path.basename(pkg), "\n".join("\t" + i for i in imports), src))
 
 
 def render_config(p, root, modpath, openapi="3.0.0", engine=None, extra=None):
